@@ -268,6 +268,138 @@ theorem lkOf_of_lookup (edb acc : DB) (g : String) (ts : List Tuple) (h : acc.lo
   unfold lkOf; rw [h]
 
 
+/-! ### the fragment of C01_partial / C04_partial -/
+
+/-- Decidable description of the fragment, computed from the program with the model's own
+    functions: the execution order the code chooses (`topoOrder`) lists every head after the heads
+    it scans (hence no recursion), only heads are executed, heads have no stored facts, no
+    aggregates, and the last executed head is the head of the last rule. -/
+def inFragment (p : Program) (edb : DB) : Bool :=
+  depOrdered p (execOrder p) [] &&
+  (execOrder p).all (heads p).contains &&
+  (heads p).all (fun h => (edb.get h).isEmpty) &&
+  p.all (fun r => !r.hasAgg) &&
+  ((execOrder p).getLast? == some (queryRel p))
+
+theorem inFragment_parts {p : Program} {edb : DB} (hfrag : inFragment p edb = true) :
+    depOrdered p (execOrder p) [] = true ∧ (∀ g, g ∈ execOrder p → g ∈ heads p) ∧
+    (∀ h, h ∈ heads p → edb.get h = []) ∧ (∀ r, r ∈ p → r.hasAgg = false) ∧
+    (execOrder p).getLast? = some (queryRel p) := by
+  simp only [inFragment, Bool.and_eq_true, List.all_eq_true, beq_iff_eq, Bool.not_eq_true',
+    List.isEmpty_iff] at hfrag
+  obtain ⟨⟨⟨⟨hdep, hheads⟩, hno⟩, hagg⟩, hlastq⟩ := hfrag
+  exact ⟨hdep, fun g hg => List.contains_iff_mem.1 (hheads g hg), hno, hagg, hlastq⟩
+
+/-- a successful run in the fragment leaves a supported model; relations that are not heads are
+    read from the stored facts; the answer is the query relation of that model. -/
+theorem run_supported (p : Program) (edb : DB) (hash : Tuple → Nat) (ord : String → List Tuple → List Tuple)
+    (fuel : Nat) (A : List Tuple) (acc : DB)
+    (hfrag : inFragment p edb = true) (hcf : ClauseFaithful p)
+    (hrun : Engine.run allOff hash ord fuel p edb = .ok A acc) :
+    Supported p (lkOf edb acc) (execOrder p) ∧
+    (∀ r, r ∉ heads p → lkOf edb acc r = edb.get r) ∧
+    lkOf edb acc (queryRel p) = A := by
+  obtain ⟨hdep, hheads', hno, hagg', hlastq⟩ := inFragment_parts hfrag
+  have hloop : execLoop allOff hash ord fuel p edb (execOrder p) [] [] = .ok A acc := by
+    unfold Engine.run at hrun
+    split at hrun
+    · cases hrun
+    · split at hrun
+      · cases hrun
+      · split at hrun
+        · cases hrun
+        · exact hrun
+  obtain ⟨hframe, hfix, hlast⟩ := execLoop_spec hash ord fuel p edb hcf hagg' (execOrder p) [] [] [] A acc hdep hheads' hloop
+  refine ⟨?_, ?_, ?_⟩
+  · intro g hg
+    obtain ⟨ts, hl, hev⟩ := hfix g hg
+    cases he : evalRules (lkOf edb acc) (clausesOf p g) with
+    | none => rw [he] at hev; cases hev
+    | some ts' =>
+      rw [he] at hev
+      refine ⟨ts', rfl, ?_⟩
+      rw [lkOf_of_lookup edb acc g ts hl]
+      exact MemEq.symm hev
+  · intro r hr
+    have hro : r ∉ execOrder p := fun hc => hr (hheads' r hc)
+    have : acc.lookup r = none := by rw [hframe r hro]; rfl
+    unfold lkOf; rw [this]
+  · exact lkOf_of_lookup edb acc _ A (hlast _ hlastq)
+
+/-! ### programs with the same set of rules (C04) -/
+
+def sameRules (p p' : Program) : Prop := ∀ r, r ∈ p ↔ r ∈ p'
+
+def sameRulesB (p p' : Program) : Bool := p.all p'.contains && p'.all p.contains
+
+theorem sameRules_of_B {p p' : Program} (h : sameRulesB p p' = true) : sameRules p p' := by
+  simp only [sameRulesB, Bool.and_eq_true, List.all_eq_true, List.contains_iff_mem] at h
+  exact fun r => ⟨h.1 r, h.2 r⟩
+
+theorem mem_firstOcc {x : String} : ∀ {l seen : List String}, x ∈ firstOcc l seen ↔ x ∈ l ∧ x ∉ seen
+  | [], seen => by simp [firstOcc]
+  | y :: ys, seen => by
+    unfold firstOcc
+    split
+    · rename_i hc
+      have hy : y ∈ seen := List.contains_iff_mem.1 hc
+      rw [mem_firstOcc (l := ys)]
+      constructor
+      · rintro ⟨h1, h2⟩; exact ⟨List.mem_cons_of_mem _ h1, h2⟩
+      · rintro ⟨h1, h2⟩
+        rcases List.mem_cons.1 h1 with rfl | h1
+        · exact absurd hy h2
+        · exact ⟨h1, h2⟩
+    · rename_i hc
+      have hy : y ∉ seen := fun h => hc (List.contains_iff_mem.2 h)
+      simp only [List.mem_cons, mem_firstOcc (l := ys)]
+      constructor
+      · rintro (rfl | ⟨h1, h2⟩)
+        · exact ⟨Or.inl rfl, hy⟩
+        · exact ⟨Or.inr h1, fun h => h2 (Or.inr h)⟩
+      · rintro ⟨rfl | h1, h2⟩
+        · exact Or.inl rfl
+        · by_cases hxy : x = y
+          · exact Or.inl hxy
+          · exact Or.inr ⟨h1, fun h => by rcases h with h | h; exact hxy h; exact h2 h⟩
+
+theorem mem_heads {p : Program} {g : String} : g ∈ heads p ↔ ∃ r, r ∈ p ∧ r.hrel = g := by
+  unfold heads
+  rw [mem_firstOcc]
+  simp [List.mem_map]
+
+theorem sameRules_heads {p p' : Program} (h : sameRules p p') (g : String) : g ∈ heads p ↔ g ∈ heads p' := by
+  rw [mem_heads, mem_heads]
+  constructor <;> rintro ⟨r, hr, he⟩
+  · exact ⟨r, (h r).1 hr, he⟩
+  · exact ⟨r, (h r).2 hr, he⟩
+
+theorem sameRules_clausesOf {p p' : Program} (h : sameRules p p') (g : String) (r : Rule) :
+    r ∈ clausesOf p g ↔ r ∈ clausesOf p' g := by
+  unfold clausesOf
+  simp only [List.mem_filter, h r]
+
+theorem sameRules_evalRules {p p' : Program} (h : sameRules p p') (F : String → List Tuple) (g : String) :
+    OptMemEq (evalRules F (clausesOf p g)) (evalRules F (clausesOf p' g)) := by
+  unfold evalRules
+  exact evalRulesWith_sameRules _ (sameRules_clausesOf h g)
+
+/-- a supported model of `p'` is a supported model of any program with the same rules. -/
+theorem supported_sameRules {p p' : Program} (h : sameRules p p') (F : String → List Tuple) (hs hs' : List String)
+    (hsub : ∀ g, g ∈ hs → g ∈ hs') (hS : Supported p' F hs') : Supported p F hs := by
+  intro g hg
+  obtain ⟨ts, he, hm⟩ := hS g (hsub g hg)
+  have := sameRules_evalRules h F g
+  rw [he] at this
+  cases he2 : evalRules F (clausesOf p g) with
+  | none => rw [he2] at this; cases this
+  | some ts2 =>
+    rw [he2] at this
+    exact ⟨ts2, rfl, hm.trans (MemEq.symm this)⟩
+
+theorem clauseFaithful_sameRules {p p' : Program} (h : sameRules p p') (hcf : ClauseFaithful p) : ClauseFaithful p' :=
+  fun r hr lk => hcf r ((h r).2 hr) lk
+
 /-! ### simple rules are evaluated faithfully -/
 
 /-- no aggregate, no comparison literal, no wildcard in a positive atom. -/
